@@ -405,6 +405,14 @@ func buildValSpecs() []valSpec {
 			}
 			return ""
 		}})
+	add(valSpec{Name: "stringer:logs-while-formatting", Kind: "stringer", Mk: func() any { return reentV{"re \"x\"\n"} },
+		JSON: func(j any) string { return jsonStringIs(j, "re \"x\"\n") },
+		Logfmt: func(p logfmt.Pair) string {
+			if !p.Quoted || p.Val != "re \"x\"\n" {
+				return fmt.Sprintf("Stringer text not preserved: %q", p.Raw)
+			}
+			return ""
+		}})
 	for _, b := range []struct {
 		n string
 		b []byte
